@@ -5,6 +5,7 @@ CONSTANTS
     Loop = "alias"
     Family = "relax"
     Tier = "quick"
+    Reporter = "contract"
     EmitOn = FALSE
 INIT Init
 NEXT Next
